@@ -266,6 +266,33 @@ func (c *checker) router(s string, vr, vt, vd bool) {
 		}
 		run.Distinct(fmt.Sprintf("route/mount-from/valid=%v/reached=%v", vr, reached))
 	}
+	// as a digest in a query parameter of the upload routes: mount=s with and without a source repository
+	// (without one the request falls back to an ordinary upload start - for a digest the router accepts),
+	// and digest=s on the single-request upload and on the completing PUT
+	if s != "" {
+		for _, q := range []struct{ name, method, path, query, reach string }{
+			{"mount-with-from", "POST", "/v2/r/blobs/uploads/", "mount=" + url.QueryEscape(s) + "&from=q", "MountBlob"},
+			{"mount-without-from", "POST", "/v2/r/blobs/uploads/", "mount=" + url.QueryEscape(s), "PushBlobChunked"},
+			{"mount-empty-from", "POST", "/v2/r/blobs/uploads/", "from=&mount=" + url.QueryEscape(s), "PushBlobChunked"},
+			{"post-digest", "POST", "/v2/r/blobs/uploads/", "digest=" + url.QueryEscape(s), "PushBlob"},
+			{"put-digest", "PUT", "/v2/r/blobs/uploads/c29tZS1pZA", "digest=" + url.QueryEscape(s), "PushBlobChunkedResume"},
+		} {
+			c.query = q.query
+			_, calls, ok := c.serve(q.method, q.path)
+			c.query = ""
+			reached := len(calls) > 0
+			if ok && reached != vd {
+				run.Violation(fmt.Sprintf("router-query-digest/%s/%s/reached=%v", q.name, strClass(s), reached), fmt.Sprintf("%s %s?%s: the backend was reached=%v (calls %d) but IsValidDigest(%q)=%v", q.method, q.path, q.query, reached, len(calls), s, vd), map[string]any{"digest": s})
+			}
+			for _, cl := range calls {
+				if cl.Digest != "" && (!ociref.IsValidDigest(cl.Digest) || !gram.ValidDigest(cl.Digest)) {
+					run.Violation("router-invalid-backend-arg/digest", fmt.Sprintf("backend %s called with invalid digest %q", cl.Method, cl.Digest), map[string]any{"query": q.query})
+				}
+			}
+			run.Count("router_query_digests", 1)
+			run.Distinct(fmt.Sprintf("route/query-digest/%s/valid=%v/reached=%v", q.name, vd, reached))
+		}
+	}
 	if strings.Contains(s, "/") {
 		// tags and digests never contain '/': only require that the backend never sees s verbatim
 		for _, p := range []string{"/v2/r/manifests/" + s, "/v2/r/blobs/" + s} {
